@@ -137,7 +137,19 @@ let run_struct c =
   | Ok (f, _) ->
     let decoded = List.map (fun sf -> json_ints (List.map int_of_z (sem_subframe f.f_hdr.h_bs sf))) f.f_subs in
     let rew = (match write_frame f with Some b -> hex_of_bytes b | None -> "") in
-    Printf.sprintf "{\"end\":\"ok\",\"rewritten\":\"%s\",\"decoded\":[%s]}" rew (String.concat "," decoded)
+    let pcm = List.map (fun c -> json_ints (List.map int_of_z c)) (sem_frame f) in
+    Printf.sprintf "{\"end\":\"ok\",\"rewritten\":\"%s\",\"decoded\":[%s],\"wf\":%b,\"spec\":%b,\"pcm\":[%s],\"number\":%d,\"bs\":%d}"
+      rew (String.concat "," decoded) (wf_frame si f) (spec_frame f) (String.concat "," pcm) (int_of_n f.f_hdr.h_number) (int_of_n f.f_hdr.h_bs)
+  | r -> Printf.sprintf "{\"end\":\"%s\"}" (res_name r)
+
+(* the strict stream validator (Spec.spec_stream): judge a whole file, return the PCM it defines *)
+let run_spec_stream c =
+  let bytes = bytes_of_hex (str_field c "bytes") in
+  match spec_stream bytes with
+  | Ok (si, frames) ->
+    let inter = List.map (fun fr -> List.map int_of_z (interleave_frame fr)) frames in
+    Printf.sprintf "{\"end\":\"ok\",\"ch\":%d,\"bps\":%d,\"rate\":%d,\"frames\":%d,\"samples\":%s}"
+      (int_of_n si.si_channels) (int_of_n si.si_bps) (int_of_n si.si_rate) (List.length frames) (json_ints (List.concat inter))
   | r -> Printf.sprintf "{\"end\":\"%s\"}" (res_name r)
 
 let () =
@@ -153,6 +165,7 @@ let () =
              | "dec_stream" -> run_dec_stream c
              | "dec_subset" -> run_dec_subset c
              | "struct" -> run_struct c
+             | "spec_stream" -> run_spec_stream c
              | k -> Printf.sprintf "{\"end\":\"unknown-kind:%s\"}" k)
           with
           | Stack_overflow -> "{\"end\":\"driver-stack-overflow\"}"
